@@ -16,6 +16,8 @@ EXPLANATION = (
     'early exit and resets it; single-member groups return first.  Mixed-dtype buckets are reported by BKT-DTYPE (known finding F8). '
     'Value equality and torch\'s flatten/unflatten are not decided.')
 
+NOT_DECIDED = 'value equality; unflatten(flatten(x)) = x (torch)'
+
 
 def run(ctx: Ctx) -> None:
     ctx.assumptions -= {'A6'}
